@@ -71,7 +71,7 @@ def _registry(prop):
                 v.patch = (patch, False)
                 out.append(v)
     # mechanical whole-package transformations (tools/mech_twins.py): silent under every property
-    for kind in ("alpha", "swap", "ifexp", "elif", "comp", "hoist", "all"):
+    for kind in ("alpha", "swap", "ifexp", "elif", "comp", "hoist", "all", "guard", "unguard", "splitand", "all2"):
         v = Variant(prop, "mechanical-%s" % kind, [], expect=None,
                     why="mechanical behaviour-preserving transformation of every function of the package (%s)" % kind)
         v.transform = kind
